@@ -36,7 +36,7 @@ def check_codec(CL, drv, events):
     step = 0
     for ev in events:
         step += 1
-        if ev[0] == CL.EV_FETCH_OK and len(ev) > 3 and ev[3] is not None and step in drv.fetch_bytes:
+        if ev[0] == CL.EV_FETCH_OK and len(ev) > 3 and ev[3] is not None and step in drv.fetch_bytes and len(ev) == 4:
             got, small = CL.decode_offsets(ev[3])
             if got != list(ev[1]) or bool(small) != bool(ev[2]):
                 bad.append((step, list(ev[3]), got, small, list(ev[1]), ev[2]))
@@ -53,6 +53,9 @@ def monitors(CL, LL, cfg, events, drv, log):
     m = LL.mon_overlap(drv.calls)
     if m:
         res.append(("C02_no_overlap", m))
+    m = LL.mon_start(events, steps)
+    if m:
+        res.append(("C02_progress (an accepted start() sends its first request)", m))
     pw = LL.ProcWindow()
     for i, (ev, outs) in enumerate(zip(events, steps)):
         pw.event(ev, True)
@@ -164,10 +167,14 @@ def run(ck):
 
     cases, impl, meta = [], [], []
 
-    def add(label, cfg, events, drv, log):
-        cases.append(CL.case_line(cfg, plain_events(events)))
-        impl.append(list(drv.trace))
-        meta.append((label, cfg, events, log))
+    def add(label, cfg, events, drv, log, model=True):
+        if model:        # histories with replies garbled in transit are outside the Gallina model (C12): monitors only
+            cases.append(CL.case_line(cfg, plain_events(events)))
+            impl.append(list(drv.trace))
+            meta.append((label, cfg, events, log))
+        if getattr(drv, "escaped", None):
+            ck.violation({"kind": "an exception escaped a stimulus of the driver", "at_event": drv.escaped[0], "error": drv.escaped[1],
+                          "traceback": drv.escaped[2], "cfg": cfg.line(), "events": jsonable(events), "replay_op": "events"})
         for ev in events:
             ck.hist("ev_" + CL.EV_NAMES[ev[0]])
         if drv.float_bad:
@@ -244,6 +251,25 @@ def run(ck):
                                       "log": [[o, list(k) if k is not None else None, list(v) if v is not None else None] for (o, k, v) in log.entries],
                                       "replay_op": "events"})
     ck.hist("completeness_checked", complete_checked)
+
+    # --- 2b. replies garbled in transit: one message in the middle of a multi-message reply fails its CRC, the real codec
+    #         yields the messages before it and raises; what was extracted must not be fetched / delivered again
+    ncorrupt = 0
+    for i in range(60 * scale):
+        cfg = CL.gen_cfg(rnd)
+        cfg.buf = rnd.choice([4096, 65536])
+        cfg.maxbuf = -1
+        cfg.maxatt = 0
+        log = LL.PartitionLog(rnd, n=rnd.randint(15, 50))
+        ents = [o for (o, k, v) in log.entries]
+        events, drv, env = LL.honest_run(rnd, cfg, log, LL.OffsetStore(), rnd.choice([30, 50]), fault=0.05, corrupt=0.35,
+                                         first=[(CL.EV_START, rnd.choice([CL.OFFSET_EARLIEST, ents[0], ents[len(ents) // 3]])),
+                                                (CL.EV_PLAN, 0, 0), (CL.EV_PLAN, 0, 0)],
+                                         weights={CL.EV_STOP: 0.3, CL.EV_SHUTDOWN: 0.2, "retain": 0, CL.EV_PLAN: 9})
+        ncorrupt += env.corrupted
+        add("garbled", cfg, events, drv, log, model=(env.corrupted == 0))
+        ck.hist("garbled_reply_runs")
+    ck.hist("garbled_replies", ncorrupt)
 
     # --- 3. arbitrary (also dishonest) environments: correspondence + the log-independent monitors
     n_any = 120 * scale
